@@ -196,8 +196,39 @@ def body(I, case):
     ext = exists_aux(I, sm, names)
     I.prove('admits-only-k-box-single-trunk-orthogons', Implies(ext, spec))
     I.prove('admitted-shapes-meet-the-cost-bound', Implies(ext, meets))
-    I.prove('admits-every-orthogon-meeting-the-bound', Implies(And(spec, meets), ext))
+    if I.mode == 'symbolic' and R * C * k > 18:
+        # big instance: the quantified query is replaced by one satisfiability query per orthogon of the specification
+        # (each shape meeting the bound must extend to a model of the CNF); exhaustive over the specification's shapes
+        ok, bad = True, None
+        for combo in shapes:
+            cost_c = sum(coef[r * C + c] for r in range(R) for c in range(C) if any(q[0] <= r <= q[1] and q[2] <= c <= q[3] for q in combo))
+            if cost_c < case['dif']:
+                continue
+            asg = {f'b{i}_{r * C + c}': (combo[i][0] <= r <= combo[i][1] and combo[i][2] <= c <= combo[i][3])
+                   for i in range(k) for r in range(R) for c in range(C)}
+            if not cnf_sat_under(sm, asg):
+                ok, bad = False, combo
+                break
+        if ok:
+            I.prove('admits-every-orthogon-meeting-the-bound', True)
+        else:
+            pins = And(*[(X[i][r * C + c] if (bad[i][0] <= r <= bad[i][1] and bad[i][2] <= c <= bad[i][3]) else Not(X[i][r * C + c]))
+                         for i in range(k) for r in range(R) for c in range(C)])
+            I.prove('admits-every-orthogon-meeting-the-bound', Not(pins))  # yields the rejected orthogon as the counterexample
+    else:
+        I.prove('admits-every-orthogon-meeting-the-bound', Implies(And(spec, meets), ext))
     I.observe('nclauses', len(sm.clauses))
+
+
+def cnf_sat_under(sm, asg):
+    import z3
+    vs = {}
+    s = z3.Solver()
+    for cl in sm.clauses:
+        s.add(z3.Or(*[(vs.setdefault(l.v, z3.Bool(l.v)) if l.s else z3.Not(vs.setdefault(l.v, z3.Bool(l.v)))) for l in cl]) if cl else z3.BoolVal(False))
+    r = s.check(*[(vs.setdefault(n, z3.Bool(n)) if v else z3.Not(vs.setdefault(n, z3.Bool(n)))) for n, v in asg.items()])
+    assert str(r) in ('sat', 'unsat')
+    return str(r) == 'sat'
 
 
 def exists_aux(I, sm, names):
